@@ -90,6 +90,10 @@ func c10Dial(c *kernel.Ctx, root *simnet.Listener, name string, ws bool) *mqttc.
 
 func runC10(c *kernel.Ctx) {
 	t := c.Tape
+	if c.Params["campaign"] != "narrow" && (c.Params["campaign"] == "wide" || t.Chance(1, 6)) {
+		runC10Wide(c)
+		return
+	}
 	c.SleepToEpoch()
 	baton := kernel.NewBaton()
 	baton.NoParkUnder = []string{"websocketTransport).Write"} // that method holds its mutex across the socket write
